@@ -60,6 +60,8 @@ var procStart = time.Now()
 func main() {
 	prop := flag.String("prop", "", "property id (C01..C20) or 'all'")
 	tier := flag.String("tier", "", "quick|thorough (default: $VERIF_TIER or quick)")
+	dumpSymbolsFlag := flag.Bool("dump-symbols", false, "print the declarations of the repo (to regenerate known_symbols.txt)")
+	renameOne := flag.String("rename-one", "", "dev tool: 'kind|scope|name|newname' — rewrite that declaration and all its uses in -repo (a scratch copy!) in place")
 	treeHashOnly := flag.Bool("tree-hash", false, "print the content hash of -repo and exit")
 	repo := flag.String("repo", "/repo", "repository to analyse")
 	verif := flag.String("verif", "", "verif directory (default: directory above the binary, or cwd)")
@@ -68,6 +70,15 @@ func main() {
 	verbose := flag.Bool("v", false, "print every obligation")
 	dump := flag.Bool("dump-funcs", false, "print the names of all repo functions (to regenerate known_funcs.txt)")
 	flag.Parse()
+	if *dumpSymbolsFlag {
+		noNormalize, dumpSyms = true, true
+		loadWorld(*repo, "-")
+		return
+	}
+	if *renameOne != "" {
+		renameInPlace(*repo, *renameOne)
+		return
+	}
 	if *treeHashOnly {
 		fmt.Println(treeHash(*repo))
 		return
@@ -77,7 +88,7 @@ func main() {
 		w := loadWorld(*repo, "-")
 		for _, f := range w.Funcs {
 			if f.Parent() == nil {
-				fmt.Println(w.FuncName(f))
+				fmt.Printf("%s\t%s\n", w.FuncName(f), sigKey(f))
 			}
 		}
 		return
@@ -127,6 +138,9 @@ func main() {
 	}()
 	w := loadWorld(*repo, *prop)
 	r := newReport(*prop, *tier, seed)
+	if len(w.Renamed) > 0 {
+		r.Extra["normalized_renamed_functions"] = w.Renamed
+	}
 	if len(w.Inlined) > 0 {
 		r.Extra["normalized_calls_inlined"] = w.Inlined
 	}
